@@ -97,6 +97,9 @@ func (g *Gen) callInstr(v ssa.Value, ins ssa.CallInstruction, st *State, r strin
 		return
 	}
 	ci := g.resolveCall(cc)
+	if cc.IsInvoke() {
+		g.safety("nil", r, "(not (= "+g.val(cc.Value).T+" nilif))", "method call on a nil interface value: "+cc.Method.Name(), ins.Pos())
+	}
 	res := g.applyCall(ci, st, r, ins.Pos(), nil)
 	if v != nil {
 		g.vals[v] = res
@@ -438,8 +441,12 @@ func (g *Gen) appendBuiltin(v ssa.Value, cc *ssa.CallCommon, st *State, r string
 		g.setHeap(st, "bytes", "(ite "+fits+" "+inplace+" "+realloc+")")
 		an := g.fresh("A")
 		g.define(an, "Int", "(ite "+fits+" "+st.A+" (+ "+st.A+" 1))")
-		g.defVal(v, "(ite "+fits+" (mkslice (s_arr "+s.T+") (s_off "+s.T+") "+newLen+" (s_cap "+s.T+")) (mkslice "+arr+" 0 "+newLen+" "+ncap+"))")
+		rv := g.defVal(v, "(ite "+fits+" (mkslice (s_arr "+s.T+") (s_off "+s.T+") "+newLen+" (s_cap "+s.T+")) (mkslice "+arr+" 0 "+newLen+" "+ncap+"))")
 		st.A = an
+		// derived fact (follows from the two cases above and validbytes of the operand):
+		// the content of the result is the old content followed by the appended bytes
+		g.assume("(= (bytesOf " + g.heap(st, "bytes") + " " + rv.T + ") (seq.++ (bytesOf " + hb + " " + s.T + ") " + tn + "))")
+		g.assume("(validbytes " + g.heap(st, "bytes") + " " + rv.T + ")")
 		return
 	}
 	unsup("append on non-byte slices")
@@ -480,6 +487,8 @@ func (g *Gen) copyBuiltin(v ssa.Value, cc *ssa.CallCommon, st *State, r string) 
 	g.define(m, "Int", "(imin (s_len "+d.T+") (seq.len "+sn+"))")
 	hb := g.heap(st, "bytes")
 	g.setHeap(st, "bytes", "(store "+hb+" (s_arr "+d.T+") (splice (select "+hb+" (s_arr "+d.T+")) (s_off "+d.T+") (seq.extract "+sn+" 0 "+m+")))")
+	// derived fact: new content of dst = copied prefix followed by the untouched rest
+	g.assume("(= (bytesOf " + g.heap(st, "bytes") + " " + d.T + ") (seq.++ (seq.extract " + sn + " 0 " + m + ") (seq.extract (bytesOf " + hb + " " + d.T + ") " + m + " (- (s_len " + d.T + ") " + m + "))))")
 	if v != nil {
 		g.defVal(v, m)
 	}
